@@ -21,6 +21,16 @@ if git -C $wt apply $seed/patch.diff 2>/tmp/seed_apply_$$.log; then
 else
   res="$res apply=FAILED"
 fi
+if [ "${SEED_IN_WORKTREE:-0}" = 1 ]; then
+  # /repo is busy (a long check is reading it): run the property's check against the patched scratch worktree
+  # instead (SYMGO_REPO); the seed is re-run against /repo itself by tools/seedregress.sh afterwards
+  SYMGO_REPO=$wt /verif/bin/symgo check -p $prop -tier $tier -no-evidence > /tmp/seed_check_$$.log 2>&1
+  code=$?
+  res="$res check_exit=$code caught_by=$(grep -A1 '^VIOLATION' /tmp/seed_check_$$.log | grep harness= | sed 's/.*harness=\([^ ]*\) label=\([^ ]*\).*/\1:\2/' | sort -u | tr '\n' ',')"
+  cp /tmp/seed_check_$$.log /verif/out/seedcheck_$(basename $seed)_$tier.log
+  git -C /repo worktree remove --force $wt
+  echo "$res"; rm -f /tmp/seed_*_$$.log; exit 0
+fi
 git -C /repo worktree remove --force $wt
 fi
 # run the check against the mutant in /repo
